@@ -498,6 +498,14 @@ func c10(c *core.Ctx) {
 		if n < 2 {
 			c.Fail("inprocgrpc:transport-stream-names", token.NoPos, "ANCHOR-MISSING: expected the unary and the streaming path to name their transport stream, found %d", n)
 		}
+		// ... and Method() of each transport stream type reports exactly that Name
+		for _, nt := range p.Implementers(p.ExtType(grpcPkg, "ServerTransportStream")) {
+			if declaredMethod(p, nt, "Method") == nil {
+				continue
+			}
+			f, ok, pos := accessorReturnsField(p, nt, "Method")
+			c.Check(ok && f == "Name", core.NamedOf(nt)+":Method-accessor", pos, "Method() returns the stored Name on every path", "Method() of a transport stream does not simply return the Name stored for the call: grpc.Method(ctx) inside the handler would report something else than the method that was called")
+		}
 		c.EndRule()
 	}
 
